@@ -1,5 +1,5 @@
 (* C01/Witness.v — non-vacuity examples (vm_compute) *)
-From Verif Require Import Common.Base C01.Model C01.Spec.
+From Verif Require Import Common.Base C01.Model C01.Spec C01.Checker C01.Harness C01.Proofs10.
 
 Definition cfg10 := mkCfg 10 true false.
 Definition cfg2 := mkCfg 2 true false.
@@ -135,4 +135,46 @@ Example finish_errors_ex :
   let st := mkStore (Some 3%N) (Some 3%N) (Some [0; 1]%N) None [(0, 70); (1, 71)]%N in
   let '(st', v', cls) := finish_with_errors true false true (mkVol 3%N 3%N [0; 1]%N 0 false 1 0) 0%N st in
   s_di st' = Some [0; 1]%N /\ s_items st' = [(1, 71)]%N /\ cdi v' = [1]%N /\ cls = 2%nat.
+Proof. vm_compute. repeat split; reflexivity. Qed.
+
+(* round 5: configuration plumbing — a queue with storage 1 and the deprecated batcher option on top is still a
+   persistent queue on storage 1 for its own signal/owner; hypotheses of cfg_* are satisfiable *)
+Example cfg_ex :
+  let q := mkQConfig true false 1 500 true (Some 1%nat) 4 None in
+  let b := mkBConfig true 200 8192 0 in
+  queue_of 2 7 (newQueueBatchConfig 9223372036854775807 8 q b) = QPersistent 500 true 1 2 7 1 /\
+  queue_of 2 7 (newQueueBatchConfig 9223372036854775807 8 (mkQConfig false false 0 5 false (Some 1%nat) 4 None) b)
+    = QMemory 9223372036854775807 true true 1.
+Proof. vm_compute. split; reflexivity. Qed.
+
+(* an oversized Offer with block_on_overflow is refused at once (size-function sizer: id 2 has size 3 > capacity 2) *)
+Example too_large_ex :
+  map fst (i_obs (incarnation (mkCfg 2 false true) store0 [Offer 2; Offer 3] None)) = [ROfferTooLarge; ROffer true].
+Proof. vm_compute. reflexivity. Qed.
+
+(* the clause checker on an observed history: a store that lost request 1 (accepted, not final) is rejected *)
+Example checker_ex :
+  clause2b (mkStore (Some 0%N) (Some 1%N) None None [(0%N, 1%N)]) [EvAccepted 1%N] = true /\
+  clause2b (mkStore (Some 0%N) (Some 1%N) None None []) [EvAccepted 1%N] = false /\
+  clause1b (mkStore (Some 1%N) (Some 1%N) None None []) [EvAccepted 1%N] = false.
+Proof. vm_compute. repeat split; reflexivity. Qed.
+
+(* the link theorem on non-trivial instances, down to the BYTE level (encode with the model, decode with the codecs,
+   run the checker): a history with three deaths (two inside recovery) and the refill history with drains *)
+Definition opc (o : op) : opcode :=
+  match o with
+  | Offer x => (0, x, 0)%nat
+  | Read => (1, 0%N, 0)%nat
+  | Complete k OOk => (2, N.of_nat k, 0)%nat
+  | Complete k OFailed => (2, N.of_nat k, 1)%nat
+  | Complete k OShutdown => (2, N.of_nat k, 2)%nat
+  | Shutdown => (3, 0%N, 0)%nat
+  end.
+Definition wire (h : history) : list (list opcode * option nat) := map (fun p => (map opc (fst p), snd p)) h.
+
+Example link_ex :
+  verdict_core (observe cfg10 store0 h_ex) [] None = 0%nat /\
+  length (observe cfg10 store0 h_ex) = 4%nat /\
+  prop_ok (CHist 10 true false (wire h_ex) (model_hist 10 true false (wire h_ex))) = true /\
+  prop_ok (CHist 2 true false (wire (h_refill ++ drains 3 3)) (model_hist 2 true false (wire (h_refill ++ drains 3 3)))) = true.
 Proof. vm_compute. repeat split; reflexivity. Qed.
